@@ -1,0 +1,100 @@
+//go:build verif
+
+// Contracts for the deductive verifier in /verif (comment-only file; no code).
+// The storage-hook specification of hooks/storage/zz_verif_contracts.go, for the redis back end (C20, C22).
+// This back end keeps one redis hash per record kind (h.hKey(kind)) and uses the un-prefixed key as the hash field.
+
+package redis
+
+// the redis client is trusted to store the value it is given under the hash and field it is given
+// verif:ext redis.cmdable.HSet params=c,ctx,key,values
+//@ modifies nset
+//@ ensures nset == old(nset) + 1
+//@ ensures r0 != nil
+// verif:ext redis.cmdable.HDel params=c,ctx,key,fields
+//@ modifies ndel
+//@ ensures ndel == old(ndel) + 1
+//@ ensures r0 != nil
+// verif:ext redis.baseCmd.Err params=c pure
+// verif:func redis.Hook.hKey pure
+//@ requires h != nil && h.config != nil
+//@ ensures r0 == h.config.HPrefix + s
+// verif:def rdckey(id string) string = id
+// verif:def rdskey(id string, filter string) string = id + ":" + filter
+// verif:def rdrkey(topic string) string = topic
+// verif:def rdikey(id string, pid uint16) string = id + ":" + fmtID(pid)
+// verif:func redis.clientKey pure
+//@ requires cl != nil
+//@ ensures C22-client-key: r0 == rdckey(cl.ID)
+// verif:func redis.subscriptionKey pure
+//@ requires cl != nil
+//@ ensures C22-subscription-key: r0 == rdskey(cl.ID, filter)
+// verif:func redis.retainedKey pure
+//@ ensures C22-retained-key: r0 == rdrkey(topic)
+// verif:func redis.inflightKey pure
+//@ requires cl != nil
+//@ ensures C22-inflight-key: r0 == rdikey(cl.ID, pk.PacketID)
+
+// verif:func redis.Hook.updateClient
+//@ requires cl != nil && h.Log != nil && h.config != nil
+//@ modifies nset
+//@ ensures C22-client-record-written-once: h.db != nil ==> nset == old(nset) + 1
+//@ callsite redis.cmdable.HSet C20-C22-client-record-is-keyed-and-identifies-the-session: len(arg3) == 2 && arg2 == h.config.HPrefix + "CL" && unboxas(arg3[0], "string") == rdckey(cl.ID) && clientRecord(clRec(arg3[1]), cl)
+//@ callsite redis.cmdable.HSet C20-C22-client-record-keeps-the-connect-properties: len(arg3) == 2 && arg2 == h.config.HPrefix + "CL" && clientRecordProps(clRec(arg3[1]), cl)
+//@ callsite redis.cmdable.HSet C20-C22-client-record-keeps-the-property-presence-flags: len(arg3) == 2 && arg2 == h.config.HPrefix + "CL" && clientRecordFlags(clRec(arg3[1]), cl)
+//@ callsite redis.cmdable.HSet C20-C22-client-record-keeps-the-will: len(arg3) == 2 && arg2 == h.config.HPrefix + "CL" && clientRecordWill(clRec(arg3[1]), cl)
+
+// verif:func redis.Hook.OnDisconnect
+//@ requires cl != nil && h.Log != nil && h.config != nil
+//@ modifies nset, ndel
+//@ ensures C22-disconnect-updates-the-client-record: h.db != nil ==> nset == old(nset) + 1
+//@ callsite redis.cmdable.HDel C22-only-an-expired-session-is-deleted: len(arg3) == 1 && arg2 == h.config.HPrefix + "CL" && arg3[0] == rdckey(cl.ID) && expire
+
+// verif:func redis.Hook.OnSubscribed
+//@ requires cl != nil && h.Log != nil && len(reasonCodes) >= len(pk.Filters) && h.config != nil
+//@ modifies nset
+//@ callsite redis.cmdable.HSet C20-C22-subscription-record-has-the-options: len(arg3) == 2 && arg2 == h.config.HPrefix + "SUB" && unboxas(arg3[0], "string") == rdskey(cl.ID, pk.Filters[i].Filter) && subRec(arg3[1]).ID == unboxas(arg3[0], "string") && subRecord(subRec(arg3[1]), cl, pk.Filters[i], reasonCodes[i])
+// verif:loop redis.Hook.OnSubscribed 1
+//@ invariant 0 <= i && cl != nil && h.Log != nil && len(reasonCodes) >= len(pk.Filters) && h.config != nil
+
+// verif:func redis.Hook.OnUnsubscribed
+//@ requires cl != nil && h.Log != nil && h.config != nil
+//@ modifies ndel
+//@ callsite redis.cmdable.HDel C22-subscription-deleted-under-its-key: len(arg3) == 1 && arg2 == h.config.HPrefix + "SUB" && arg3[0] == rdskey(cl.ID, pk.Filters[i].Filter)
+// verif:loop redis.Hook.OnUnsubscribed 1
+//@ invariant 0 <= i && cl != nil && h.Log != nil && h.config != nil
+
+// verif:func redis.Hook.OnRetainMessage
+//@ requires cl != nil && h.Log != nil && h.config != nil
+//@ modifies nset, ndel
+//@ ensures C22-retained-message-written-or-deleted: h.db != nil ==> (r == -1 ? (ndel == old(ndel) + 1 && nset == old(nset)) : (nset == old(nset) + 1 && ndel == old(ndel)))
+//@ callsite redis.cmdable.HDel C22-cleared-retained-message-deleted-under-its-key: len(arg3) == 1 && arg2 == h.config.HPrefix + "RET" && arg3[0] == rdrkey(pk.TopicName) && r == -1
+//@ callsite redis.cmdable.HSet C20-C22-retained-record-is-keyed-and-attributed: len(arg3) == 2 && arg2 == h.config.HPrefix + "RET" && unboxas(arg3[0], "string") == rdrkey(pk.TopicName) && msgRec(arg3[1]).ID == unboxas(arg3[0], "string") && retainedIdentity(msgRec(arg3[1]), cl, pk)
+//@ callsite redis.cmdable.HSet C20-C22-retained-record-has-header-topic-and-payload: len(arg3) == 2 && arg2 == h.config.HPrefix + "RET" && msgContent(msgRec(arg3[1]), pk)
+//@ callsite redis.cmdable.HSet C20-C22-retained-record-keeps-the-publish-properties: len(arg3) == 2 && arg2 == h.config.HPrefix + "RET" && msgPropsKept(msgRec(arg3[1]), pk)
+//@ callsite redis.cmdable.HSet C20-C22-retained-record-keeps-the-payload-format-flag: len(arg3) == 2 && arg2 == h.config.HPrefix + "RET" && msgPayloadFormatFlagKept(msgRec(arg3[1]), pk)
+
+// verif:func redis.Hook.OnQosPublish
+//@ requires cl != nil && h.Log != nil && h.config != nil
+//@ modifies nset
+//@ ensures C22-inflight-message-written-once: h.db != nil ==> nset == old(nset) + 1
+//@ callsite redis.cmdable.HSet C20-C22-inflight-record-is-keyed-and-attributed: len(arg3) == 2 && arg2 == h.config.HPrefix + "IFM" && unboxas(arg3[0], "string") == rdikey(cl.ID, pk.PacketID) && msgRec(arg3[1]).ID == unboxas(arg3[0], "string") && inflightIdentity(msgRec(arg3[1]), cl, pk, sent)
+//@ callsite redis.cmdable.HSet C20-C22-inflight-record-has-header-topic-and-payload: len(arg3) == 2 && arg2 == h.config.HPrefix + "IFM" && msgContent(msgRec(arg3[1]), pk)
+//@ callsite redis.cmdable.HSet C20-C22-inflight-record-keeps-the-publish-properties: len(arg3) == 2 && arg2 == h.config.HPrefix + "IFM" && msgPropsKept(msgRec(arg3[1]), pk)
+//@ callsite redis.cmdable.HSet C20-C22-inflight-record-keeps-the-payload-format-flag: len(arg3) == 2 && arg2 == h.config.HPrefix + "IFM" && msgPayloadFormatFlagKept(msgRec(arg3[1]), pk)
+
+// verif:func redis.Hook.OnQosComplete
+//@ requires cl != nil && h.Log != nil && h.config != nil
+//@ modifies ndel
+//@ ensures C22-completed-message-deleted-once: h.db != nil ==> ndel == old(ndel) + 1
+//@ callsite redis.cmdable.HDel C22-inflight-message-deleted-under-its-key: len(arg3) == 1 && arg2 == h.config.HPrefix + "IFM" && arg3[0] == rdikey(cl.ID, pk.PacketID)
+
+// verif:func redis.Hook.OnRetainedExpired
+//@ requires h.Log != nil && h.config != nil
+//@ modifies ndel
+//@ callsite redis.cmdable.HDel C22-expired-retained-message-deleted-under-its-key: len(arg3) == 1 && arg2 == h.config.HPrefix + "RET" && arg3[0] == rdrkey(filter)
+
+// verif:func redis.Hook.OnClientExpired
+//@ requires cl != nil && h.Log != nil && h.config != nil
+//@ modifies ndel
+//@ callsite redis.cmdable.HDel C22-expired-client-deleted-under-its-key: len(arg3) == 1 && arg2 == h.config.HPrefix + "CL" && arg3[0] == rdckey(cl.ID)
